@@ -24,7 +24,8 @@ class Contract:
         self.globals = kw.pop("globals", {})
         self.requires = _lst(kw.pop("requires", []))
         self.ensures = _lst(kw.pop("ensures", []))
-        self.ensures_assumed = _lst(kw.pop("ensures_assumed", []))  # visible to callers only; not verified (ghost definitions)
+        self.ensures_assumed = _lst(kw.pop("ensures_assumed", []))
+        self.ensures_internal = _lst(kw.pop("ensures_internal", []))  # verified, but not handed to callers (talk about concrete classes)  # visible to callers only; not verified (ghost definitions)
         self.raises = kw.pop("raises", {})  # exc -> condition string (pre-state) or True
         self.on_raise = kw.pop("on_raise", {})  # exc -> [clauses]
         self.modifies = kw.pop("modifies", None)  # None = unchecked; list of "self.x" / "g:mod.name" / "entry.mimetype"
@@ -159,6 +160,7 @@ class World:
         return exc_isa(n, base)
 
     def exc_str(self, eng, v):
+        X.force_oserror_args(eng, v)
         ci = self.repo.cls(v.cls)
         if ci is not None and "__str__" in ci.methods:
             fi = self.repo.resolve_method(v.cls, "__str__")
@@ -176,7 +178,17 @@ class World:
         return VStr(z3.String(eng.fresh_name("exc_str")))
 
     def exc_attr(self, eng, v, attr):
+        if attr == "from_wfile":
+            # ghost flag: was this OSError raised by a write to the client socket (fault model)?
+            if attr not in v.attrs:
+                v.attrs[attr] = VBool(z3.Bool(eng.fresh_name("exc_from_wfile")))
+            return v.attrs[attr]
+        decl = self.field_decl.get(v.cls)
+        if decl and attr in decl:
+            v.attrs[attr] = eng.fresh(decl[attr], "exc_%s_%s" % (v.cls, attr))
+            return v.attrs[attr]
         if attr in ("errno", "strerror") and exc_isa(v.cls, "OSError"):
+            X.force_oserror_args(eng, v)
             if len(v.args) >= 2:
                 return v.args[0] if attr == "errno" else v.args[1]
             return NONE
@@ -461,6 +473,12 @@ class World:
         if valty.startswith("opaque:"):
             f = z3.Function("dict_val_" + name, kz.sort(), U)
             return VOpaque(valty[7:], f(kz))
+        if valty == "list[str]":
+            # non-empty list of strings per key (parse_qs)
+            ln = z3.Function("dict_val_len_" + name, kz.sort(), z3.IntSort())(kz)
+            eng.assume(ln >= 1)
+            ef = z3.Function("dict_val_elem_" + name, kz.sort(), z3.IntSort(), z3.StringSort())
+            return VList(None, ln, lambda i, kz=kz: VStr(ef(kz, zint(i))), "str")
         raise OutOfSubset("symbolic dict value type %s" % valty)
 
     def ctx_enter(self, eng, ctx):
@@ -619,6 +637,11 @@ class World:
         if (c is not None and c.inline) or fi.qualname in self.inline_ok:
             eng.inlined.add(fi.qualname)
             return self.inline_call(eng, fi, args, kwargs, selfcls)
+        if (c is None and eng.contract is not None and eng.contract.opts.get("inline_module_helpers")
+                and fi.cls is None and fi.relfile == eng.fi.relfile):
+            # a helper function of the same module without a contract of its own: part of the body
+            eng.inlined.add(fi.qualname)
+            return self.inline_call(eng, fi, args, kwargs, selfcls)
         raise OutOfSubset("call to %s (self class %s): no contract and not declared inline" % (fi.qualname, selfcls))
 
     def inline_call(self, eng, fi, args, kwargs, selfcls):
@@ -725,7 +748,11 @@ class World:
                             tgt.unset.discard(attr)
                         defined.add("%s.%s" % (base, attr))
                         continue
-                eng.assume(eng.eval_merged(lambda cl=cl: eng.truth(eng.eval_str(cl, fr))))
+                cv = eng.eval_merged(lambda cl=cl: eng.truth(eng.eval_str(cl, fr)))
+                if cv is False or (not isinstance(cv, bool) and z3.is_false(z3.simplify(cv))):
+                    # assuming it would silently cut the path (vacuity): the contract cannot be applied here
+                    raise OutOfSubset("postcondition %r of %s is unsatisfiable at this call site (contract error)" % (cl, fi.qualname))
+                eng.assume(cv)
             return res
         finally:
             eng.in_callee_model = saved
@@ -897,6 +924,8 @@ class World:
         fi = self.repo.get(c.qualname)
         if fi is None:
             raise OutOfSubset("function %s not found in repository" % c.qualname)
+        if selfcls is not None and selfcls.startswith("<"):
+            selfcls = None  # pseudo class: a second contract (another configuration) of a module-level function
         label = label or (c.label or ((selfcls + "::" if selfcls and selfcls != fi.cls else "") + (fi.cls + "." if fi.cls else "") + fi.name))
         eng = Engine(self, label)
         eng.cur_label = label
@@ -905,7 +934,7 @@ class World:
         eng.contract = c
         eng.fi = fi
         world = self
-        ensures = list(c.ensures) if not canary else [c.canary]
+        ensures = (list(c.ensures) + list(c.ensures_internal)) if not canary else [c.canary]
 
         def body(eng):
             eng.gstate = {}
@@ -1091,5 +1120,7 @@ def snapshot(x, memo=None):
     if isinstance(x, VOpt):
         return VOpt(x.isnone, snapshot(x.inner, memo))
     if isinstance(x, VExc):
+        if isinstance(x.args, LazyOSArgs):
+            return x
         return VExc(x.cls, [snapshot(v, memo) for v in x.args], {k: snapshot(v, memo) for k, v in x.attrs.items()})
     return x
